@@ -30,7 +30,11 @@ def gen(rng, depth=0, maxdepth=4, kinds=None):
 
 
 def text(rng, v, ws=0.15):
-    w = lambda: rng.choice([b" ", b"\n", b"  ", b" " * 70]) if rng.random() < ws else b""
+    # all four JSON whitespace bytes, alone, in runs of every order (the scalar pre-checks look at the first two bytes of a run, the
+    # vector bitmap at the rest) and in runs longer than a 64-byte block
+    w = lambda: (rng.choice([b" ", b"\n", b"  ", b" " * 70, b"\t", b"\r", b"\r\n", b"  \r\n", b"\n\r\n\r", b" \t\r\n" * rng.choice([1, 2, 20]),
+                             bytes(rng.choice(b" \t\n\r") for _ in range(rng.randrange(1, 6)))])
+                 if rng.random() < ws else b"")
     if v is None:
         return b"null"
     if v is True:
